@@ -131,6 +131,7 @@ structure Event where
   fid : FId
   v : Val
   snap : List Nat
+  depth : Nat := 0     -- janet_vm.stackn at the time of the event, relative to the entry of the outermost janet_continue
   deriving Repr, Inhabited
 
 inductive Halt where
@@ -180,8 +181,20 @@ def State.fiber? (s : State) (f : FId) : Option Fiber := s.fibers[f]?
 def State.setFiber (s : State) (f : FId) (x : Fiber) : State := { s with fibers := s.fibers.set f x }
 def State.snapshot (s : State) : List Nat := s.fibers.map (·.status)
 def State.stop (s : State) (h : Halt) : State := { s with halt := some h }
+/-- live janet_call frames of a fiber (each one did `oldn = janet_vm.stackn++`) -/
+def ccFrames (fp : Fiber) : Nat := (fp.kont.filter Frame.isCC).length
+
+/-- janet_vm.stackn relative to its value when the outermost janet_continue was entered: every live
+    janet_continue_no_check activation counts once (`state->stackn = janet_vm.stackn++` in janet_try_init when it is in
+    run_vm, resp. the `janet_vm.stackn++` around `janet_continue(child)` when it is in the child branch), plus once per
+    live janet_call frame.  That the C's increments / decrements / restores amount to exactly this function of the
+    nesting is `counter_restored` (Fiber/Guard.lean); that the number is right is compared with the real
+    `janet_vm.stackn` at every logged instruction (guard pass of checks/C05.py). -/
+def depthOf (s : State) : Nat :=
+  s.stack.foldl (fun n q => n + 1 + (match s.fiber? q with | some fq => ccFrames fq | none => 0)) 0
+
 def State.log (s : State) (l : Nat) (f : FId) (v : Val) : State :=
-  if l == 0 then s else { s with trace := { l := l, fid := f, v := v, snap := s.snapshot } :: s.trace }
+  if l == 0 then s else { s with trace := { l := l, fid := f, v := v, snap := s.snapshot, depth := depthOf s } :: s.trace }
 
 def evalAtom (s : State) (env : List Val) : Atom → Val
   | .lit v => v
